@@ -138,6 +138,61 @@ def active (cfg : Cfg) (path ae : Bytes) (h0 : Hdrs) : Bytes :=
   else if !(hfirst h0 kCE).isEmpty then []       -- "already compressed": an outer middleware set Content-Encoding
   else chooseEncoding ae cfg
 
+/-! ### options.go: `defaultConfig()` and the `With…` options, folded in the order `New` applies them -/
+
+/-- the functional options of compression/options.go -/
+inductive Opt
+  | gzipLevel (n : Int)
+  | brotliLevel (n : Int)
+  | brotliDisabled
+  | gzipDisabled
+  | minSize (n : Int)
+  | exclPaths (l : List Bytes)
+  | exclExts (l : List Bytes)
+  | exclCT (l : List Bytes)
+  | logger
+  deriving DecidableEq, Repr
+
+/-- the Go `config` (the three exclusion maps as lists: a map insert is an append, lookups are memberships) -/
+structure Config where
+  gzipLevel : Int
+  brotliLevel : Int
+  minSize : Int
+  enableGzip : Bool
+  enableBrotli : Bool
+  exclPaths : List Bytes
+  exclExts : List Bytes
+  exclCT : List Bytes
+  deriving DecidableEq, Repr
+
+/-- `defaultConfig()`: gzip.DefaultCompression (-1), brotli 4, no threshold, both codings, nothing excluded -/
+def defaultConfig : Config :=
+  { gzipLevel := -1, brotliLevel := 4, minSize := 0, enableGzip := true, enableBrotli := true,
+    exclPaths := [], exclExts := [], exclCT := [] }
+
+/-- one option applied (`WithBrotliLevel` clamps to [0, 11]: `max(0, min(level, 11))`; the exclusion options
+    insert into the maps; `WithLogger` does not touch anything the response depends on) -/
+def applyOpt (c : Config) : Opt → Config
+  | .gzipLevel n => { c with gzipLevel := n }
+  | .brotliLevel n => { c with brotliLevel := max 0 (min n 11) }
+  | .brotliDisabled => { c with enableBrotli := false }
+  | .gzipDisabled => { c with enableGzip := false }
+  | .minSize n => { c with minSize := n }
+  | .exclPaths l => { c with exclPaths := c.exclPaths ++ l }
+  | .exclExts l => { c with exclExts := c.exclExts ++ l }
+  | .exclCT l => { c with exclCT := c.exclCT ++ l }
+  | .logger => c
+
+/-- `cfg := defaultConfig(); for _, opt := range opts { opt(cfg) }` -/
+def config (opts : List Opt) : Config := opts.foldl applyOpt defaultConfig
+
+/-- what the handler closure reads of the configuration. The threshold is an `int` that is only ever compared
+    with lengths (`len(buffer)+len(data) < holdBack()`, `len(buffer) >= threshold`, `threshold < sniffLen`,
+    `minSize > 0`): a negative value behaves as 0. The levels select the encoder pool only (codec parameter). -/
+def Config.toCfg (c : Config) : Cfg :=
+  { minSize := c.minSize.toNat, gzip := c.enableGzip, br := c.enableBrotli,
+    exclCT := c.exclCT, exclPaths := c.exclPaths, exclExts := c.exclExts }
+
 /-! ### the repaired compressWriter -/
 
 structure CW where
